@@ -18,15 +18,8 @@ extern "C" { char nondet_char(void); }
 /* ---------------------------------------------------------------------------------------------------------------
  * containers: DataArray with the bounds assertion added; every element access of a descriptor array instantiates the
  * defining recurrence of the ghost prefix-count arrays at the accessed index (writer only, see COUNT_HOOK) */
-#ifdef INST_WRITE
-static inline void count_hook(const void* base, int n, int v)
-{
-   if(base == (const void*)gp_cs)
-      __CPROVER_assume(0 <= gp_cb[n] && gp_cb[n] <= n && gp_cb[n + 1] == gp_cb[n] + (v > 0 ? 1 : 0) && gp_cb[n + 1] <= gp_cb[g_nc]);
-   else if(base == (const void*)gp_rs)
-      __CPROVER_assume(0 <= gp_nrw[n] && gp_nrw[n] <= n && gp_nrw[n + 1] == gp_nrw[n] + (v < 0 ? 1 : 0) && gp_nrw[n + 1] <= gp_nrw[g_nr]
-                       && ((0 <= g_r && g_r < g_nr && n < g_r) ? gp_nrw[n + 1] <= gp_nrw[g_r] : 1));
-}
+#if defined(INST_WRITE) || defined(INST_WRITEFILE)
+static inline void count_hook(const void* base, int n, int v);   /* defined below, after the enumerations */
 #define COUNT_HOOK(data, n) count_hook((const void*)(data), (n), (int)(data)[n])
 #else
 #define COUNT_HOOK(data, n)
@@ -63,6 +56,12 @@ struct NameSet
    ~NameSet() { if(!g_done) g_destroyed++; }
    int num() const { return g_ns_num[id]; }
    bool has(const DataKey& pkey) const { return nondet_bool(); }
+   bool has(int pnum) const { return nondet_bool(); }
+   const char* operator[](int pnum) const
+   {
+      __CPROVER_assert(0 <= pnum && pnum < g_ns_num[id], "NameSet position in range");
+      return pool + pnum;
+   }
    const char* operator[](const DataKey& pkey) const
    {
       __CPROVER_assert(0 <= pkey.idx && pkey.idx < g_ns_num[id], "NameSet key in range");
@@ -130,49 +129,83 @@ struct EndlT { int dummy; };
 inline EndlT endl_marker() { EndlT e; e.dummy = 0; return e; }
 #define endl endl_marker()
 
-/* ostream: assembles tokens into records  <indicator> <column name> [<row name>] <endl>  and publishes the record(s)
- * that name the ghost columns g_c1, g_c2 and the ghost row g_r. */
+/* The stream stubs assemble tokens into records  <indicator> <column name> [<row name>] <end of line>  and publish the
+ * record(s) that name the ghost columns g_c1, g_c2 and the ghost row g_r. */
+static inline void sink_name(int letter, int idx)
+{
+   if(g_cur_kind == K_NONE || g_endata) { g_malformed++; return; }
+   if(letter == 'x') { if(g_cur_col >= 0 || g_cur_row >= 0) g_malformed++; g_cur_col = idx; }
+   else if(letter == 'C') { if(g_cur_col < 0 || g_cur_row >= 0) g_malformed++; g_cur_row = idx; }
+   else g_malformed++;
+}
+static inline void sink_indicator(const char* s)
+{
+   int k = (s[1] == 'X' && s[2] == 'U') ? K_XU : (s[1] == 'X' && s[2] == 'L') ? K_XL : (s[1] == 'U' && s[2] == 'L') ? K_UL :
+           (s[1] == 'L' && s[2] == 'L') ? K_LL : K_OTHER;
+   if(g_cur_kind != K_NONE || !g_header || g_endata || k == K_OTHER) g_malformed++;
+   g_cur_kind = k;
+}
+static inline void sink_eol()
+{
+   if(g_cur_kind != K_NONE)
+   {
+      bool x = (g_cur_kind == K_XU || g_cur_kind == K_XL);
+      if(g_cur_col < 0 || (x ? g_cur_row < 0 : g_cur_row >= 0)) g_malformed++;
+      g_nrec++;
+      if(g_cur_col == g_c1) { g_c1_seen++; g_c1_kind = g_cur_kind; g_c1_row = g_cur_row; }
+      if(g_cur_col == g_c2) { g_c2_seen++; g_c2_kind = g_cur_kind; g_c2_row = g_cur_row; }
+      if(g_cur_row >= 0 && g_cur_row == g_r) { g_r_seen++; g_r_kind = g_cur_kind; g_r_col = g_cur_col; }
+      g_cur_kind = K_NONE; g_cur_col = -1; g_cur_row = -1;
+   }
+}
 struct ostream
 {
    void setf(int) {}
-   void name_token(int letter, int idx)
-   {
-      if(g_cur_kind == K_NONE || g_endata) { g_malformed++; return; }
-      if(letter == 'x') { if(g_cur_col >= 0 || g_cur_row >= 0) g_malformed++; g_cur_col = idx; }
-      else if(letter == 'C') { if(g_cur_col < 0 || g_cur_row >= 0) g_malformed++; g_cur_row = idx; }
-      else g_malformed++;
-   }
    ostream& operator<<(const char* s)
    {
-      if(s == gp_buf) name_token(g_buf_letter, g_buf_idx);
-      else if(gp_colpool != 0 && __CPROVER_same_object(s, gp_colpool)) name_token('x', (int)(s - gp_colpool));
-      else if(gp_rowpool != 0 && __CPROVER_same_object(s, gp_rowpool)) name_token('C', (int)(s - gp_rowpool));
+      if(s == gp_buf) sink_name(g_buf_letter, g_buf_idx);
+      else if(gp_colpool != 0 && __CPROVER_same_object(s, gp_colpool)) sink_name('x', (int)(s - gp_colpool));
+      else if(gp_rowpool != 0 && __CPROVER_same_object(s, gp_rowpool)) sink_name('C', (int)(s - gp_rowpool));
       else if(s[0] == 'N' && s[1] == 'A' && s[2] == 'M' && s[3] == 'E') { if(g_header || g_nrec || g_endata || g_cur_kind) g_malformed++; g_header++; }
       else if(s[0] == 'E' && s[1] == 'N' && s[2] == 'D' && s[3] == 'A' && s[4] == 'T' && s[5] == 'A' && s[6] == 0) { if(!g_header || g_cur_kind) g_malformed++; g_endata++; }
       else if(s[0] == ' ' && s[1] == ' ') { /* column separator */ }
-      else if(s[0] == ' ' && s[3] == ' ' && s[4] == 0)
-      {
-         int k = (s[1] == 'X' && s[2] == 'U') ? K_XU : (s[1] == 'X' && s[2] == 'L') ? K_XL : (s[1] == 'U' && s[2] == 'L') ? K_UL :
-                 (s[1] == 'L' && s[2] == 'L') ? K_LL : K_OTHER;
-         if(g_cur_kind != K_NONE || !g_header || g_endata || k == K_OTHER) g_malformed++;
-         g_cur_kind = k;
-      }
+      else if(s[0] == ' ' && s[3] == ' ' && s[4] == 0) sink_indicator(s);
       else g_malformed++;
       return *this;
    }
    ostream& operator<<(SetwT) { return *this; }
-   ostream& operator<<(EndlT)
+   ostream& operator<<(EndlT) { sink_eol(); return *this; }
+};
+/* ofstream as SoPlexBase::writeBasisFile uses it: names are either one token (a user name) or the two tokens "x"|"C", <int>.
+ * std::setw(n) pads the NEXT inserted item (only) to n characters (left-aligned here): if that item is the one-letter
+ * prefix of a two-token name, blanks end up INSIDE the name (g_name_split). */
+struct ofstream
+{
+   int dummy;
+   ofstream(const char* fn) { dummy = 0; g_width = 0; g_pend_letter = 0; g_open_arg_ok = (fn == gp_filename); }
+   bool good() const { return nondet_bool(); }
+   void setf(int) {}
+   ofstream& operator<<(SetwT w) { g_width = w.n; return *this; }
+   ofstream& operator<<(int v)
    {
-      if(g_cur_kind != K_NONE)
-      {
-         bool x = (g_cur_kind == K_XU || g_cur_kind == K_XL);
-         if(g_cur_col < 0 || (x ? g_cur_row < 0 : g_cur_row >= 0)) g_malformed++;
-         g_nrec++;
-         if(g_cur_col == g_c1) { g_c1_seen++; g_c1_kind = g_cur_kind; g_c1_row = g_cur_row; }
-         if(g_cur_col == g_c2) { g_c2_seen++; g_c2_kind = g_cur_kind; g_c2_row = g_cur_row; }
-         if(g_cur_row >= 0 && g_cur_row == g_r) { g_r_seen++; g_r_kind = g_cur_kind; g_r_col = g_cur_col; }
-         g_cur_kind = K_NONE; g_cur_col = -1; g_cur_row = -1;
-      }
+      g_width = 0;
+      if(g_pend_letter) { sink_name(g_pend_letter, v); g_pend_letter = 0; } else g_malformed++;
+      return *this;
+   }
+   ofstream& operator<<(const char* s)
+   {
+      int w = g_width; g_width = 0;
+      if(g_pend_letter) { g_malformed++; g_pend_letter = 0; }
+      if(s == gp_filename) { /* header line: NAME  <filename> */ }
+      else if(gp_colpool != 0 && __CPROVER_same_object(s, gp_colpool)) sink_name('x', (int)(s - gp_colpool));
+      else if(gp_rowpool != 0 && __CPROVER_same_object(s, gp_rowpool)) sink_name('C', (int)(s - gp_rowpool));
+      else if(s[0] == '\n' && s[1] == 0) sink_eol();
+      else if((s[0] == 'x' || s[0] == 'C') && s[1] == 0) { g_pend_letter = s[0]; if(w > 1) g_name_split++; }
+      else if(s[0] == 'N' && s[1] == 'A' && s[2] == 'M' && s[3] == 'E') { if(g_header || g_nrec || g_endata || g_cur_kind) g_malformed++; g_header++; }
+      else if(s[0] == 'E' && s[1] == 'N' && s[2] == 'D' && s[3] == 'A' && s[4] == 'T' && s[5] == 'A' && s[6] == '\n' && s[7] == 0) { if(!g_header || g_cur_kind) g_malformed++; g_endata++; }
+      else if(s[0] == ' ' && s[1] == ' ') { /* column separator */ }
+      else if(s[0] == ' ' && s[3] == ' ' && s[4] == 0) sink_indicator(s);
+      else g_malformed++;
       return *this;
    }
 };
@@ -391,6 +424,79 @@ static inline void init_lp(SPxLPBase<R>& lp, double* lhs, double* rhs, int nr, d
    lp.low.val = lower; lp.low.dimen = nc; lp.up.val = upper; lp.up.dimen = nc;
    gp_lhs = lhs; gp_rhs = rhs; gp_low = lower; gp_up = upper; g_nr = nr; g_nc = nc; g_inf = infinity;
 }
+
+#if defined(INST_WRITE) || defined(INST_WRITEFILE)
+/* Ghost prefix counts.  Every element access of a status array instantiates, at the accessed index n, the defining
+ * recurrence cnt[n+1] == cnt[n] + [entry n counts] of the ghost array and consequences of the definition
+ * (0 <= cnt[n] <= n, monotonicity towards the end and towards the ghost row).  The ghost arrays are not read by the sliced
+ * code; for every input the true prefix counts satisfy all instances, so no execution of the real code is excluded. */
+#ifdef INST_WRITE
+#define COL_COUNTS(v) ((v) > 0)      /* basic column: D_x status */
+#define ROW_COUNTS(v) ((v) < 0)      /* nonbasic row: P_x status */
+#else
+extern "C" { extern int g_BASIC; }
+#define COL_COUNTS(v) ((v) == g_BASIC)
+#define ROW_COUNTS(v) ((v) != g_BASIC)
+#endif
+static inline void count_hook(const void* base, int n, int v)
+{
+   if(base == (const void*)gp_cs)
+      __CPROVER_assume(0 <= gp_cb[n] && gp_cb[n] <= n && gp_cb[n + 1] == gp_cb[n] + (COL_COUNTS(v) ? 1 : 0) && gp_cb[n + 1] <= gp_cb[g_nc]);
+   else if(base == (const void*)gp_rs)
+      __CPROVER_assume(0 <= gp_nrw[n] && gp_nrw[n] <= n && gp_nrw[n + 1] == gp_nrw[n] + (ROW_COUNTS(v) ? 1 : 0) && gp_nrw[n + 1] <= gp_nrw[g_nr]
+                       && ((0 <= g_r && g_r < g_nr && n < g_r) ? gp_nrw[n + 1] <= gp_nrw[g_r] : 1));
+}
+#endif
+
+#ifdef INST_WRITEFILE
+/* SoPlexBase<R>::writeBasisFile (soplex.hpp): the branch for an LP that is not loaded in the solver writes the basis
+ * kept in _basisStatusRows/_basisStatusCols itself */
+template <class T> struct SPxSolverBase
+{
+#include "Solver_VarStatus.inc"
+};
+template <class T> struct SoPlexBase
+{
+#include "RangeType.inc"
+};
+extern "C" { extern int g_delegated; }
+struct SolverFileStub
+{
+   bool writeBasisFile(const char* filename, const NameSet* rowNames, const NameSet* colNames, const bool cpxFormat = false) const { g_delegated++; return nondet_bool(); }
+};
+struct H : SoPlexBase<R>
+{
+   bool _isRealLPLoaded; bool _hasBasis; SolverFileStub _solver;
+   DataArray<SPxSolverBase<R>::VarStatus> _basisStatusRows, _basisStatusCols;
+   DataArray<RangeType> _rowTypes;
+   const char* filename; const NameSet* rowNames; const NameSet* colNames; bool cpxFormat;
+   bool body() const
+   {
+#include "writeBasisFile.inc"
+   }
+};
+extern "C" int w_writeBasisFile(int* rowstat, int* colstat, int* rowtypes, int nr, int nc, int loaded, int hasbasis, int cpx,
+                                int userownames, int usecolnames, const char* rowpool, const char* colpool, const char* fname, int* cb, int* nrw)
+{
+   VIN("nr", nr); VIN("nc", nc); VIN("cpx", cpx); VIN("hasbasis", hasbasis); VIN("loaded", loaded);
+   VIN_ARR8("rowstat", rowstat, nr); VIN_ARR8("colstat", colstat, nc);
+   H h; NameSet rn, cn;
+   h._isRealLPLoaded = loaded != 0; h._hasBasis = hasbasis != 0;
+   h._basisStatusRows.data = (SPxSolverBase<R>::VarStatus*)rowstat; h._basisStatusRows.thesize = nr;
+   h._basisStatusCols.data = (SPxSolverBase<R>::VarStatus*)colstat; h._basisStatusCols.thesize = nc;
+   h._rowTypes.data = (H::RangeType*)rowtypes; h._rowTypes.thesize = nr;
+   rn.pool = rowpool; rn.id = 0; g_ns_num[0] = nr; g_ns_iscol[0] = 0; cn.pool = colpool; cn.id = 1; g_ns_num[1] = nc; g_ns_iscol[1] = 1;
+   h.filename = fname; h.rowNames = userownames ? &rn : 0; h.colNames = usecolnames ? &cn : 0; h.cpxFormat = cpx != 0;
+   g_nr = nr; g_nc = nc; gp_rs = rowstat; gp_cs = colstat; gp_cb = cb; gp_nrw = nrw; gp_rt = rowtypes; g_cpx = cpx; gp_filename = fname;
+   gp_rowpool = userownames ? rowpool : 0; gp_colpool = usecolnames ? colpool : 0; gp_buf = 0;
+   g_cur_kind = K_NONE; g_cur_col = -1; g_cur_row = -1; g_header = 0; g_endata = 0; g_malformed = 0; g_nrec = 0; g_name_split = 0;
+   g_c1_seen = 0; g_c1_kind = 0; g_c1_row = -1; g_c2_seen = 0; g_c2_kind = 0; g_c2_row = -1; g_r_seen = 0; g_r_kind = 0; g_r_col = -1;
+   g_destroyed = 0; g_done = 0; g_delegated = 0; g_width = 0; g_pend_letter = 0; g_open_arg_ok = 0;
+   bool r = h.body();
+   g_done = 1;
+   return r ? 1 : 0;
+}
+#endif
 
 #ifdef INST_WRITE
 struct H : SPxBasisHost
